@@ -80,6 +80,12 @@ pub fn any_segments<const N: usize>() -> Segments {
     s
 }
 
+/// (is_delivered, never sent, is_mtu_probe) of segment i - for harness modules outside this file
+pub fn seg_flags(s: &Segments, i: usize) -> (bool, bool, bool) {
+    let g = &s.segments[i];
+    (g.is_delivered, g.send_count() == 0, g.is_mtu_probe)
+}
+
 #[derive(Clone, Copy, PartialEq)]
 struct SegSnap { size: usize, off: u64, delivered: bool, probe: bool, send_count: usize }
 fn snap(s: &Segments, i: usize) -> SegSnap {
